@@ -7,6 +7,7 @@ PROPS = {
     'C01': dict(verus=['u_small', 'u_htok'], level='proof', technique=HTOK_T),
     'C03': dict(verus=['u_small', 'u_bq', 'u_htok'], level='proof', technique=HTOK_T),
     'C04': dict(verus=['u_small', 'u_bq', 'u_htok'], level='proof', technique=HTOK_T),
+    'C07': dict(verus=['u_hser'], level='proof', technique='contract-based deductive verification (Verus) of the verbatim-extracted HtmlSerializer escaping / raw-text logic against a spec escape function with proved reversibility and confinement lemmas'),
     'C08': dict(verus=['u_htok'], level='proof', technique=HTOK_T),
     'C09': dict(verus=['u_htok'], level='proof', technique=HTOK_T),
     'C13': dict(
